@@ -13,6 +13,7 @@ use std::collections::{BTreeMap, BTreeSet};
 use std::path::{Path, PathBuf};
 use std::time::Instant;
 
+pub mod durability;
 pub mod rng;
 pub use rng::Rng;
 
